@@ -636,6 +636,14 @@ class Exec:
         if name in ("Py_INCREF", "Py_XINCREF", "Py_NewRef", "Py_XNewRef") and len(args) == 1:
             p.events.append(self._incref(args[0]))
             return args[0] if name.endswith("NewRef") else ("null",)
+        if name == "PyTuple_New" and len(args) == 1 and args[0][0] == "num":
+            self.ncall += 1
+            base = f"local:tuple{self.ncall}"
+            p.env[f"%len:{base}"] = args[0]
+            return ("ptr", base, ZERO)
+        if name in ("PyTuple_SET_ITEM", "PyTuple_SetItem") and len(args) == 3 and args[0][0] == "ptr" and args[0][1].startswith("local:tuple") and args[1][0] == "num":
+            p.mem.setdefault(args[0][1], []).append((self.aff(args[1]), args[2]))       # the tuple steals the reference: no count changes
+            return ("num", Fraction(0))
         if name == "PyTuple_Pack" and args and args[0][0] == "num" and args[0][1] == len(args) - 1:
             for a in args[1:]:                      # the tuple takes its own reference to every item
                 p.events.append(self._incref(a))
@@ -1107,6 +1115,15 @@ class Exec:
     def record(self, p, dst, ret=None, exc=None):
         if len(self.trans) > self.limit:
             raise Unsupported("too many paths")
+        if ret is not None and ret[0] == "ptr" and ret[1].startswith("local:tuple") and ret[2] == ZERO:
+            # a tuple built with PyTuple_New / PyTuple_SET_ITEM: the value is its items
+            n = p.env.get(f"%len:{ret[1]}")
+            items = {}
+            for ix, v in p.mem.get(ret[1], []):
+                items[int(ix.k)] = v
+            if n is None or sorted(items) != list(range(int(n[1]))):
+                raise Unsupported("a tuple is returned before every item is set")
+            ret = ("obj", "tuple") + tuple(items[i] for i in range(int(n[1])))
         self.trans.append(dict(src=p.src, dst=dst, key=list(p.key), cons=list(p.cons), env=dict(p.env), mem={b: list(v) for b, v in p.mem.items()},
                                acc=list(p.acc), events=list(p.events), ret=ret, exc=exc, subst=dict(p.subst)))
 
